@@ -27,6 +27,11 @@ fn main() {
          let tier = args.get(2).cloned().unwrap_or_else(|| "quick".into());
          driver::check_main(&id, &tier);
       },
+      Some("selfcheck") => {
+         let n: u64 = args.get(1).and_then(|s| s.parse().ok()).unwrap_or(1000);
+         let checks: Vec<String> = if args.len() > 2 { args[2..].to_vec() } else { ["C02", "C05", "C10", "C13", "C14", "C19", "C20"].iter().map(|s| s.to_string()).collect() };
+         driver::selfcheck_main(&checks, n);
+      },
       Some("worker") => {
          let check = arg_after(&args, "--check").unwrap();
          let tier = arg_after(&args, "--tier").unwrap();
